@@ -142,6 +142,21 @@ def onePs : List Nat := [64, 65, 66, 67, 68, 69, 70, 71, 74, 75, 76, 77, 80, 83,
     the same) — round 3, finding F106d: the emulator ignored the whole sequence. -/
 def twoPs : List Nat := [72, 102, 114]
 
+/-- `s` cut at its first `;` (59): what is before and what is after it; `none` without a `;`. -/
+def splitSemi (s : List Nat) : Option (List Nat × List Nat) :=
+  match s.span (· ≠ 59) with
+  | (_, []) => none
+  | (a, _ :: b) => some (a, b)
+
+/-- `OSC 8 ; params ; url ST` (round 3): the payload is `8;params;url`, `params` without `;`. -/
+def osc8Tok (payload : List Nat) : Option Term.Tok :=
+  match splitSemi payload with
+  | some ([56], rest) =>
+    match splitSemi rest with
+    | some (params, url) => some (.osc8 params url)
+    | none => none
+  | _ => none
+
 /-- `tokOf`, extended: any number of parameters for the one-parameter functions; `CSI ? 25 h/l`;
     `CSI n SP q` (n ≤ 65535 — the emulator clamps a larger value). -/
 def tokOfX : EOp → Option Term.Tok
@@ -152,6 +167,7 @@ def tokOfX : EOp → Option Term.Tok
     if f ∈ onePs ∧ (f = 84 → pm.length ≠ 5) then tokOf (.csi [f] (firstOnly pm))
     else if f ∈ twoPs ∧ pm.length > 2 then tokOf (.csi [f] (pm.take 2))
     else tokOf (.csi [f] pm)
+  | .osc payload _ => osc8Tok payload
   | op => tokOf op
 
 end VaxisModel.Model.EmuAbs
